@@ -154,6 +154,18 @@ def run_one(seed, tape, opts):
                      ("probe_keys",),
                      ("wait_steps", tape.choose(40, "linger")),
                      ("close",)]
+    c3 = None
+    if not match and same_mailbox and appid_a == appid_b and \
+            tape.choose(3, "third") == 0:
+        # a third party tries the same nameplate with yet another code: the
+        # server admits two sides and answers the third with 'crowded'
+        c3 = w.add_client("C", appid=appid_a, api="deferred",
+                          versions={"who": "C"})
+        c3.script = [("wait_steps", tape.choose(60, "c3w")),
+                     ("set_code", code_a.split("-")[0] + "-zz-top"),
+                     ("wait_event_or_steps", "closed",
+                      200 + tape.choose(300, "c3v")),
+                     ("close",)]
     if opts.get("faults", True):
         ca.pick_faults(tape, w, ("cut", "server_restart", "mbox_dup",
                                  "mbox_reorder", "mbox_replay_stored"), 3)
@@ -164,8 +176,9 @@ def run_one(seed, tape, opts):
             viol.append({"key": key, "clause": clause, "detail": detail})
 
     # truth: who processed a peer encrypted message
-    heard = {"A": [False, False, False], "B": [False, False, False]}
-    pake_delivered = {"A": False, "B": False}
+    heard = {"A": [False, False, False], "B": [False, False, False],
+             "C": [False, False, False]}
+    pake_delivered = {"A": False, "B": False, "C": False}
 
     def on_server_msg(c, msg):
         if msg.get("type") == "message" and msg.get("side") != c.side and \
@@ -183,7 +196,7 @@ def run_one(seed, tape, opts):
                    (op[0] == "helper" and op[1] == "choose_words")):
             heard[c.name][0] = True
     w.on_op = on_op
-    derived = {"A": {}, "B": {}}
+    derived = {"A": {}, "B": {}, "C": {}}
     samples = [(tape.pick(PURPOSES, "pu"), tape.pick((1, 8, 16, 32, 64, 1000),
                                                      "pl")) for _ in range(4)]
 
@@ -209,7 +222,9 @@ def run_one(seed, tape, opts):
     w.on_app_event = on_app_event
 
     def done():
-        return bool(viol) or (a.is_closed and b.is_closed and w.scripts_done())
+        return bool(viol) or (a.is_closed and b.is_closed and
+                              (c3 is None or c3.is_closed) and
+                              w.scripts_done())
     sim.run(4000, until=done)
     w.heal()
     r = sim.run(6000, until=done, max_time=900)
